@@ -350,6 +350,38 @@ def eval_wf(ctx, case, forest=None):
         if got != exp:
             ctx.violation(f"find:{kind}", f"find by {kind} {q!r} returned elements {got}, independent filter gives {exp}", case, {"query": [kind, q]})
             break
+    # find() called on inner elements with every combination of its scope options (candidates from parent links, not from walk())
+    def ancestors(x):
+        out = []
+        while x.parent is not None:
+            x = x.parent
+            out.append(x)
+        return out
+
+    import random as _r
+
+    rr = _r.Random(len(s))
+    for e in rr.sample(real, min(3, len(real))) + [root]:
+        desc = [x for x in real if any(a is e for a in ancestors(x))]
+        kids = [x for x in desc if x.parent is e]
+        for include_self in (False, True):
+            for recurse in (False, True):
+                cand = ([e] if include_self and e is not root else []) + (desc if recurse else kids)
+                for kind, q, _ in queries[:6]:
+                    if kind == "name":
+                        exp2 = [x for x in cand if x.name == q]
+                        got2 = e.find(q, include_self=include_self, recurse=recurse)
+                    elif kind == "class":
+                        exp2 = [x for x in cand if q in (x.attrs.get("class") or "").split()]
+                        got2 = e.find(P.Element, classes=[q], include_self=include_self, recurse=recurse)
+                    else:
+                        continue
+                    got2 = [x for x in got2 if not isinstance(x, (P.TerminalElement, P.Root))]
+                    ctx.count("find_scope_queries")
+                    if [id(x) for x in got2] != [id(x) for x in exp2]:
+                        ctx.violation(f"find:scope:include_self={include_self}:recurse={recurse}", f"{type(e).__name__}<{e.name}>.find({q!r}, include_self={include_self}, recurse={recurse}) returned {[pos.get(id(x), -1) for x in got2]}, "
+                                      f"the elements in that scope that match are {[pos.get(id(x), -1) for x in exp2]}", case, {"query": [kind, q]})
+                        return
 
 
 def eval_case(ctx, case):
